@@ -43,7 +43,7 @@ pub fn worker_main(props: &[Property], args: &[String]) -> i32 {
     let Some(sc) = prop.sub(sub) else { return 4 };
     install_panic_hook();
     set_rlimit_as(env_u64("VERIF_AS_LIMIT_MB", 10 * 1024) * 1024 * 1024);
-    WATCH.case_budget_ms.store(env_u64("VERIF_CASE_BUDGET_MS", 30_000), Ordering::Relaxed);
+    WATCH.case_budget_ms.store(env_u64("VERIF_CASE_BUDGET_MS", 120_000), Ordering::Relaxed);
     WATCH.rss_budget_kb.store(env_u64("VERIF_RSS_LIMIT_MB", 3 * 1024) * 1024, Ordering::Relaxed);
     *WATCH.dump_path.lock().unwrap() = Some(format!("{}.hang.json", out));
     *WATCH.header.lock().unwrap() = Some((id.clone(), sub.clone()));
@@ -92,7 +92,7 @@ pub fn exec_case_main(props: &[Property], file: &str) -> i32 {
     install_panic_hook();
     known::set_strict(true);
     set_rlimit_as(env_u64("VERIF_AS_LIMIT_MB", 10 * 1024) * 1024 * 1024);
-    WATCH.case_budget_ms.store(env_u64("VERIF_CASE_BUDGET_MS", 30_000), Ordering::Relaxed);
+    WATCH.case_budget_ms.store(env_u64("VERIF_CASE_BUDGET_MS", 120_000), Ordering::Relaxed);
     WATCH.rss_budget_kb.store(env_u64("VERIF_RSS_LIMIT_MB", 3 * 1024) * 1024, Ordering::Relaxed);
     start_watchdog();
     install_abort_handler();
@@ -318,7 +318,7 @@ pub fn run_main(props: &[Property], id: &str, tier: Tier, seed: u64) -> i32 {
                     continue;
                 }
                 *done += 1;
-                let b = env_u64("VERIF_CASE_BUDGET_MS", 30_000) * 4;
+                let b = env_u64("VERIF_CASE_BUDGET_MS", 120_000) * 2;
                 let (p1, p2) = (path.clone(), path.clone());
                 let (e1, e2) = (exe.clone(), exe.clone());
                 let h1 = std::thread::spawn(move || exec_case_child(&e1, &p1, b, 3 * 1024).0);
